@@ -344,4 +344,49 @@ func threadSafeList.Len
   ghost before call list.Len: assert held(t.mutex) || rheld(t.mutex)
   ensures unlocked(t.mutex)
 
+
+-- the remaining wrappers of the thread-safe flavour: each delegates to the method of the SAME name of the lock-free list,
+-- with the same arguments, under the write lock (mutators) resp. the read lock (readers)
+func threadSafeList.PushBackList
+  requires t != nil && t.list != nil && unlocked(t.mutex)
+  modifies everything
+  ghost before call list.PushBackList: assert held(t.mutex) && arg0 == t.list && arg1 == other
+  ensures unlocked(t.mutex)
+
+func threadSafeList.PushFrontList
+  requires t != nil && t.list != nil && unlocked(t.mutex)
+  modifies everything
+  ghost before call list.PushFrontList: assert held(t.mutex) && arg0 == t.list && arg1 == other
+  ensures unlocked(t.mutex)
+
+func threadSafeList.ForEach
+  requires t != nil && t.list != nil && unlocked(t.mutex)
+  modifies everything
+  ghost before call list.ForEach: assert rheld(t.mutex) && arg0 == t.list && true
+  ensures unlocked(t.mutex)
+
+func threadSafeList.ForEachReverse
+  requires t != nil && t.list != nil && unlocked(t.mutex)
+  modifies everything
+  ghost before call list.ForEachReverse: assert rheld(t.mutex) && arg0 == t.list && true
+  ensures unlocked(t.mutex)
+
+func threadSafeList.Range
+  requires t != nil && t.list != nil && unlocked(t.mutex)
+  modifies everything
+  ghost before call list.Range: assert rheld(t.mutex) && arg0 == t.list && true
+  ensures unlocked(t.mutex)
+
+func threadSafeList.RangeReverse
+  requires t != nil && t.list != nil && unlocked(t.mutex)
+  modifies everything
+  ghost before call list.RangeReverse: assert rheld(t.mutex) && arg0 == t.list && true
+  ensures unlocked(t.mutex)
+
+func threadSafeList.Values
+  requires t != nil && t.list != nil && unlocked(t.mutex)
+  modifies everything
+  ghost before call list.Values: assert rheld(t.mutex) && arg0 == t.list && true
+  ensures unlocked(t.mutex)
+
 @*/
